@@ -13,6 +13,35 @@ CHECKS = {
    "explicit-state BFS to fixpoint over two real Tcbs + deviation-bounded enumeration of driver decisions",
    "Every interleaving of writes, reads, flushes, RTO expiries and per-segment deliver/drop/duplicate choices of a two-endpoint system built from the real Tcb is enumerated to a fixpoint within small budgets; in every state the stream-prefix invariant is checked and a fair continuation must deliver, acknowledge and fall silent. Large transfers (above MSS and above the 64 KiB window) are covered by bounded-deviation enumeration around the loss-free run.",
    "Budgets (writes, drops, duplicates, timer expiries) and MTU/ISN values are those listed in the evidence parts; the network model loses/duplicates/reorders but does not corrupt.", "6 C01"),
+
+ "C02": (True, "E2", "model_checking",
+   "deviation-bounded exhaustive schedule search (task order, select branch, per-frame faults) over the real socket stack under a paused clock",
+   "Socket/TcpStream/TcpListener scenarios (several write plans, read sizes, MTUs, late accept, replies, 1-3 clients, datagrams with a bystander) run on the real SocketAPI/Tcp/Udp/Ipv4/Arp/Pci/Network; every execution within d deviations from the FIFO, loss-free execution is run exactly once and judged: read lengths bounded, each stream a prefix of and finally equal to the peer's writes, datagrams intact and to the peer only.",
+   "Poll granularity: the chooser enumerates which runnable task is polled next (an over-approximation of any multi-thread runtime at that granularity) but not two polls running simultaneously; deviation bounds per scenario are in the evidence.", "6 C02"),
+ "C05": (True, "E2", "model_checking",
+   "deviation-bounded exhaustive schedule search over Network/Pci with virtual time",
+   "Configurations of 1-2 networks, 2-4 machines, 1-2 taps, MTU boundary sizes, constant/variable latency and throughputs send unicast, unknown-address, broadcast and oversize frames concurrently; every schedule and jitter choice within d deviations is executed and judged exactly under virtual time: right tap only, every other tap for broadcast, payload and sender unchanged, MTU refusal, distinct addresses, latency and throughput lower bounds, medium serialisation.",
+   "Delivery of a broadcast to the sender's own tap is not judged; construction of taps from several OS threads is outside a single-threaded explorer.", "6 C05"),
+ "C06": (True, "E2", "model_checking",
+   "exhaustive loss-pattern enumeration (all subsets of the first k ARP frames) x bounded schedule deviations on the real Arp",
+   "For each topology/subnet/gateway configuration every subset of dropped frames among the first k ARP frames, crossed with every pair of scheduling deviations, is executed on the real Arp/Pci/Network: a resolved MAC is the owner's (or gateway's), an exchange that got through implies success, concurrent resolvers agree, unclaimed addresses fail within the retry budget and nothing hangs.",
+   "k = 4 (quick) / 6 (thorough); horizon 3 s of virtual time.", "6 C06"),
+ "C11": (True, "E1 (+ stateright cross-check)", "model_checking",
+   "explicit-state BFS to fixpoint over the real Reassembly with fragments from the real fragment()",
+   "All arrival orders of the fragments of several datagrams (differing in one key field each, a successor with the same key, two MTU chains that overlap), duplicates within a budget and expiry callbacks at every point are enumerated on the real reassembler against a range-cover reference; state counts are cross-checked against stateright.",
+   "Three genuine defects (duplicates, overlaps, stale expiry) are open known findings; models without duplicates/overlap must be completely clean.", "6 C11"),
+ "C12": (True, "E1 lock-step + E3", "model_checking",
+   "lock-step product BFS of two TCP systems that differ only in ISNs + exhaustive products for the comparison primitives",
+   "The C01 system is run as a pair with ISNs (100,300) and shifted ISNs placed so that 2^32 and 2^31 fall on the SYN, the first data byte and inside segments; after every action of every interleaving the ISN-relative views (segments, states, counters, delivered bytes) must be identical. mod_lt/leq/gt/geq/bounded are compared with the mathematical circular order on full boundary products, and the Segment heap order on all insertion permutations across the wrap.",
+   "12 ISN pairs in quick, all 576 pairs in thorough; budgets as C01-T1 quick.", "6 C12"),
+ "C15": (True, "E1 + E3 (generator); DHCP part pending", "model_checking",
+   "explicit-state BFS over the real IpGenerator against a two-bitset reference + exhaustive constructor products",
+   "Every sequence of fetch_ip/fetch_net/return/block operations over small windows (fixpoint for windows up to 10 addresses, depth-bounded for 16) at both ends of the address space is executed on the real generator; after every step the drained offer must equal the reference's available set and every result is judged for overlap, alignment and false exhaustion; constructors are enumerated over all ranges and masks.",
+   "The DHCP lease clause (concurrent clients) is decided by a separate scenario family that is still being built.", "6 C15"),
+ "C17": (True, "E1 + E3", "model_checking",
+   "all states of a fault-free two-endpoint model x full attacker-segment alphabet product, each distinct outcome continued with the legitimate peer",
+   "From every reachable state of a fault-free model (all nine statuses) one segment of the product 64 flag sets x 8 seq x 6 ack x 4 window x 3 length is injected by the real segment_arrives (thorough: also two in a row and a 70000-byte sweep past an injected sequence number); no call may unwind, first transmissions stay inside the reference window, table-6-unacceptable segments change neither state nor delivered data, and every distinct resulting state is continued with the real peer.",
+   "Acceptability is RFC 9293 table 6; Elvis deliberately accepts RCV.NXT-1 (open known finding).", "6 C17"),
  "C03": (True, "E1", "model_checking",
    "explicit-state BFS to fixpoint over two real Tcbs with close / simultaneous open / old duplicate SYN",
    "All interleavings of opens, closes (either or both sides, in every state), data, one drop or duplicate and RTO expiries are enumerated on the real Tcb; every call is checked against the RFC 9293 figure-5 transition relation, every state against sequence-space agreement, and from every distinct state a fair continuation in which both applications close must release both TCBs without a reset and with all data delivered before end-of-stream.",
